@@ -13,16 +13,16 @@ EXPLANATION = (
     'of each step (lookup key / complete or fail the oldest or newest pending load / advance clock / cancel task i), keys, '
     'clock increments and per-step drain bits are symbolic. Asserted: never more than num_slots entries; returned values '
     'younger than lifetime and of the right key; at most one load per key in flight; a lookup raises only LoadError of a '
-    'load of its key or CancelledError if itself was cancelled; every lookup finishes once loads complete. Schedules are '
-    'partitioned by what cancel() hits so each mechanism is its own obligation; counterexamples are re-run on the stock '
+    'load of its key or CancelledError if itself was cancelled; every lookup finishes once loads complete. Two sub-families '
+    '(cancels hitting only load leaders / only followers) are run separately so each mechanism is its own obligation; counterexamples are re-run on the stock '
     'asyncio loop against the real class. Only "Confirmed over all paths" discharges a shard. Bounded: 2 keys, 1..2 slots, '
     '3 tasks, k=4 steps (quick) / k=5 (thorough).'
 )
 SRC = 'gear/gear/time_limited_max_size_cache.py'
 HM = 'harness.C26_cache'
-MODES = {0: 'bounded/fresh/single-flight/errors/live (no cancel hits a follower)',
-         1: 'cancelling a follower does not fail other callers; all C26 assertions (no cancel hits a load leader)',
-         2: 'all C26 assertions with cancels of both a load leader and a follower'}
+MODES = {0: 'bounded / fresh / single-flight / fails-only-own-caller / live over all schedules',
+         1: 'cancelling the leader of a shared load does not fail the other callers (cancels hit load leaders only)',
+         2: 'cancelling a follower of a shared load does not fail the other callers (cancels hit followers only)'}
 NT = 3
 
 
@@ -47,12 +47,9 @@ def describe(a, meta):
             + '; '.join(s + ('+drain' if d else '') for s, d in zip(steps, dr)))
 
 
-def groups_for(k, shard_on):
-    out = []
-    for mode in (0, 1, 2):
-        out.append((mode, sched.gen_shards(f'C26_k{k}m{mode}', HM, params(k), shard_on, entry=(f'check_{NT}_{k}', f'reach_{NT}_{k}'),
-                                           const={'mode': mode}, prefix=f'k{k}m{mode}_', meta={'nt': NT, 'k': k, 'mode': mode})[1]))
-    return out
+def group(k, mode, shard_on):
+    return (mode, sched.gen_shards(f'C26_k{k}m{mode}', HM, params(k), shard_on, entry=(f'check_{NT}_{k}', f'reach_{NT}_{k}'),
+                                   const={'mode': mode}, prefix=f'k{k}m{mode}_', meta={'nt': NT, 'k': k, 'mode': mode})[1])
 
 
 def run(R):
@@ -66,11 +63,12 @@ def run(R):
     A1 = list(range(0, 7))
     if R.tier == 'quick':
         pct = 240
-        groups = groups_for(4, {'a1': A1, 'd0': B})
+        groups = [group(4, 0, {'a1': A1, 'd0': B, 'd1': B}), group(3, 1, {'d0': B}), group(3, 2, {'d0': B})]
         R.bounds = {'keys': 2, 'num_slots': '1..2', 'lifetime': '1..4', 'tasks': 3, 'steps': 'k=4', 'clock increment': '0..6'}
     else:
         pct = 1300
-        groups = groups_for(4, {'a1': A1, 'd0': B}) + groups_for(5, {'a1': A1, 'd0': B, 'd1': B, 'slots': [1, 2]})
+        groups = [group(4, 0, {'a1': A1, 'd0': B, 'd1': B}), group(5, 0, {'a1': A1, 'd0': B, 'd1': B, 'slots': [1, 2]}),
+                  group(3, 1, {'d0': B}), group(3, 2, {'d0': B}), group(4, 1, {'d0': B, 'd1': B}), group(4, 2, {'d0': B, 'd1': B})]
         R.bounds = {'keys': 2, 'num_slots': '1..2', 'lifetime': '1..4', 'tasks': 3, 'steps': 'k=4 and k=5', 'clock increment': '0..6'}
     R.assume('prometheus_client metrics are inert; prometheus_async.aio.time(metric, future) (package absent from the sandbox) is '
              'modelled as a coroutine that awaits the future and observes in a finally block',
@@ -79,8 +77,8 @@ def run(R):
              'a value\'s age is measured from the instant its load coroutine returned',
              'load(k) suspends once and ends when the director completes it (value or LoadError); it does not swallow CancelledError',
              'step 0 looks up key 0 (keys are interchangeable); shutdown() is not exercised',
-             'the partition into modes uses Task._fut_waiter to tell whether a task has started; the three modes cover every '
-             'schedule whatever that predicate answers, and the oracle never uses it',
+             'mode 0 is the whole claim; the sub-families 1 and 2 use Task._fut_waiter to tell whether a task has started (never '
+             'used by the oracle)',
              'event loop = asyncio.BaseEventLoop scheduler with a fixed clock and a null I/O selector (vt/sched.py DetLoop); '
              'counterexamples are replayed on the stock loop',
              'CrossHair 0.0.110 path exploration is exhaustive when it reports "Confirmed over all paths"')
